@@ -319,6 +319,12 @@ class Parser(RstParser):
 
         # post-processing
 
+        # the default role (set by the ``default-role`` directive) is specific to the document:
+        # remove it, as the docutils rST parser does at the end of every parse
+        from docutils.parsers.rst import roles
+
+        roles._roles.pop("", None)
+
         # replace raw nodes if raw is not allowed
         if not getattr(document.settings, "raw_enabled", True):
             for node in document.traverse(nodes.raw):
